@@ -6,14 +6,12 @@ mpn_popcount / mpn_hamdist.  Merged into c10.py automatically."""
 from genlib import *
 
 LEAN_MODULES = ["MpirProofs.Props.C10_swar"]
-THEOREMS = ["Mpir.Swar." + t for t in ["limb4_fields", "limb4_popc", "n4_range", "red2_fields", "red4_fields", "block_eq", "block_le_256", "tailLimb_fields"]]
+THEOREMS = ["Mpir.Swar." + t for t in ["limb4_fields", "limb4_popc", "n4_range", "red2_fields", "red4_fields", "block_eq", "block_le_256", "tailLimb_fields", "tail_eq", "popcount_swar_eq_mod", "popcount_swar_eq", "hamdist_swar_eq", "popcount_swar_digits", "hamdist_swar_digits"]]
 TRUSTED = ["hand-written model lean/Mpir/Model/Swar.lean (statement-by-statement mirror of mpn/generic/popcount.c for GMP_LIMB_BITS = 64; "
            "hamdist.c is the same text on u ^ v), tied to the library's mpn_popcount / mpn_hamdist by differential execution on every run",
-           "RUN ONLY (not yet proved): the tail loop's accumulation and final folds as a whole (popcount.c:101-114; the lemmas tailFin_bytes, "
-           "allB_add, sumB_mod for it are proved in Lemmas/Swar.lean but the loop invariant is not assembled), the outer loop (:51, :84, :90) and hence "
-           "Swar.mpn_popcount = Bits.mpn_popcount % 2^64 and the hamdist analogue — tied to the library and to the c10_bits model only by the "
-           "differential run and by `decide` examples.  PROVED for all limbs: the per-limb reduction :53-55, the whole 4-limb block :53-80 (block_eq), "
-           "the tail's per-limb step :96-99 (tailLimb_fields)",
+           "nothing of popcount.c is modelled by meaning any more: Swar.mpn_popcount / mpn_hamdist (statement level) are PROVED equal to the c10_bits models "
+           "for every limb list (popcount_swar_eq_mod / popcount_swar_eq / hamdist_swar_eq); mpn_hamdist is modelled as the popcount code on the limb-wise xor "
+           "(the C is one text with POPHAM(u,v) = u ^ v), not as a second copy of the loop",
            "that the build links the generic C (no popcount/hamdist assembly is selected in this configuration)"]
 ASSUMPTIONS = ["mp_limb_t and mp_bitcnt_t are 64-bit unsigned (every assignment is written % 2^64); equality with the exact bit count needs "
                "64*n < 2^64 (the count is representable in mp_bitcnt_t); without it the theorem states equality modulo 2^64"]
